@@ -503,49 +503,57 @@ End Splice.
 (** * removeTip: the tail of the function (Case 2 / Case 3), and the function in pieces *)
 Local Open Scope string_scope.
 Definition suppress_tail (tipname : string) (internal : nat) (h : heap) : hres heap :=
-  do hi <- get_node h internal;
-  if Nat.eqb (length (hneigh hi)) 2 then
-    do n1 <- nth_res (hneigh hi) 0;
-    do n2 <- nth_res (hneigh hi) 1;
-    do b1 <- nth_res (hbr hi) 0;
-    do b2 <- nth_res (hbr hi) 1;
-    do bd1 <- get_edge h b1;
-    do bd2 <- get_edge h b2;
-    let length1 := elen (hinfo bd1) in
-    let length2 := elen (hinfo bd2) in
-    let sup1 := esup (hinfo bd1) in
-    let sup2 := esup (hinfo bd2) in
-    let dir1 := Nat.eqb (hleft bd1) n1 in
-    let dir2 := Nat.eqb (hright bd2) n2 in
-    do h <- del_neighbor n1 internal h;
-    do h <- del_neighbor n2 internal h;
-    do hn1 <- get_node h n1;
-    do hn2 <- get_node h n2;
-    do (e, h) <-
-       (if dir1 && dir2 then connect_nodes n1 n2 h
-        else if negb dir1 && negb dir2 then connect_nodes n2 n1 h
-        else if negb dir1 && dir2 then
-          if negb (Nat.eqb (hroot h) internal)
-          then HErr ("The tree root is not the internal node, but it should be, while removing tip " ++ tipname)
-          else if Nat.ltb 1 (length (hneigh hn1)) then
-            do (e, h) <- connect_nodes n1 n2 h; HOk (e, set_root h n1)
-          else if Nat.ltb 1 (length (hneigh hn2)) then
-            do (e, h) <- connect_nodes n2 n1 h; HOk (e, set_root h n2)
-          else if Nat.eqb (length (hneigh hn2)) 1 || Nat.eqb (length (hneigh hn1)) 1 then
-            HErr ("After removing the tip " ++ tipname ++ " connected to the root, RemoveTip could not find a new node to set as a root (the children of the root are either tips or single nodes). You can run gotree collapse single or call RemoveSingleNodes.")
-          else HErr ("The tree after tip removal is only made of two tips after removing tip " ++ tipname)
-        else HErr ("Branches of internal node are not oriented as they should be while removing tip " ++ tipname));
-    do h <- (if negb (qeqb length1 nilv) || negb (qeqb length2 nilv)
-             then set_info h e (fun i => mkE (qmax 0%Q length1 + qmax 0%Q length2)%Q (esup i) (epv i) (ecom i))
-             else HOk h);
-    do hn1 <- get_node h n1;
-    do hn2 <- get_node h n2;
-    do h <- (if (negb (qeqb sup1 nilv) || negb (qeqb sup2 nilv)) &&
-                Nat.ltb 1 (length (hneigh hn1)) && Nat.ltb 1 (length (hneigh hn2))
-             then set_info h e (fun i => mkE (elen i) (qmax sup1 sup2) (epv i) (ecom i))
-             else HOk h);
-    del_node internal h
-  else HOk h.
+    do hi <- get_node h internal;
+    if Nat.eqb (length (hneigh hi)) 2 then
+      do n1 <- nth_res (hneigh hi) 0;
+      do n2 <- nth_res (hneigh hi) 1;
+      do b1 <- nth_res (hbr hi) 0;
+      do b2 <- nth_res (hbr hi) 1;
+      do bd1 <- get_edge h b1;
+      do bd2 <- get_edge h b2;
+      let length1 := elen (hinfo bd1) in
+      let length2 := elen (hinfo bd2) in
+      let sup1 := esup (hinfo bd1) in
+      let sup2 := esup (hinfo bd2) in
+      let dir1 := Nat.eqb (hleft bd1) n1 in
+      let dir2 := Nat.eqb (hright bd2) n2 in
+      do h <- del_neighbor n1 internal h;
+      do h <- del_neighbor n2 internal h;
+      do hn1 <- get_node h n1;
+      do hn2 <- get_node h n2;
+      do (e, h) <-
+         (if dir1 && dir2 then connect_nodes n1 n2 h
+          else if negb dir1 && negb dir2 then connect_nodes n2 n1 h
+          else if negb dir1 && dir2 then
+            if negb (Nat.eqb (hroot h) internal)
+            then HErr ("The tree root is not the internal node, but it should be, while removing tip " ++ tipname)
+            else if Nat.ltb 1 (length (hneigh hn1)) then
+              do (e, h) <- connect_nodes n1 n2 h; HOk (e, set_root h n1)
+            else if Nat.ltb 1 (length (hneigh hn2)) then
+              do (e, h) <- connect_nodes n2 n1 h; HOk (e, set_root h n2)
+            else if Nat.eqb (length (hneigh hn2)) 1 || Nat.eqb (length (hneigh hn1)) 1 then
+              HErr ("After removing the tip " ++ tipname ++ " connected to the root, RemoveTip could not find a new node to set as a root (the children of the root are either tips or single nodes). You can run gotree collapse single or call RemoveSingleNodes.")
+            else HErr ("The tree after tip removal is only made of two tips after removing tip " ++ tipname)
+          else HErr ("Branches of internal node are not oriented as they should be while removing tip " ++ tipname));
+      (* math.Max(0,l1)+math.Max(0,l2) and math.Max(sup1,sup2) are symmetric on floats; the model
+         lists the branch nearer the root first, as Model/Prune.v [merge_edge] does *)
+      let swap := negb dir1 && negb dir2 in
+      let la := if swap then length2 else length1 in
+      let lb := if swap then length1 else length2 in
+      let sa := if swap then sup2 else sup1 in
+      let sb := if swap then sup1 else sup2 in
+      do h <- (if negb (qeqb la nilv) || negb (qeqb lb nilv)
+               then set_info h e (fun i => mkE (qmax 0%Q la + qmax 0%Q lb)%Q (esup i) (epv i) (ecom i))
+               else HOk h);
+      do hn1 <- get_node h n1;
+      do hn2 <- get_node h n2;
+      do h <- (if (negb (qeqb sa nilv) || negb (qeqb sb nilv)) &&
+                  Nat.ltb 1 (length (hneigh (if swap then hn2 else hn1))) &&
+                  Nat.ltb 1 (length (hneigh (if swap then hn1 else hn2)))
+               then set_info h e (fun i => mkE (elen i) (qmax sa sb) (epv i) (ecom i))
+               else HOk h);
+      del_node internal h
+    else HOk h.
 Local Close Scope string_scope.
 
 Lemma remove_tip_heap_eq tipname tip h :
@@ -574,6 +582,14 @@ Lemma remove_tip_heap_eq tipname tip h :
     if (fin : bool) then HOk h else suppress_tail tipname internal h.
 Proof. reflexivity. Qed.
 
+(** the information of the branch made by Case 2 (same body as Model/Prune.v [merge_edge]) *)
+Definition merged_info (e1 e2 : einfo) (inner1 inner2 : bool) : einfo :=
+  mkE (if negb (qeqb (elen e1) nilv) || negb (qeqb (elen e2) nilv)
+       then (qmax 0%Q (elen e1) + qmax 0%Q (elen e2))%Q else nilv)
+      (if (negb (qeqb (esup e1) nilv) || negb (qeqb (esup e2) nilv)) && inner1 && inner2
+       then qmax (esup e1) (esup e2) else nilv)
+      nilv [].
+
 (** Case 2 on an inner node [i] between its parent [P] and its only remaining child [C] *)
 Lemma suppress_inner_eval h name i hi P C eP eC (pfirst : bool) hP hC jP jC iP iC :
   alookup i (hnodes h) = Some hi ->
@@ -586,7 +602,8 @@ Lemma suppress_inner_eval h name i hi P C eP eC (pfirst : bool) hP hC jP jC iP i
   exists h' einfo, suppress_tail name i h = HOk h' /\
     splice_desc h h' P i C eP eC
       (mkHN (hname hP) (hcom hP) (del_nth jP (hneigh hP) ++ [C]) (del_nth jP (hbr hP) ++ [hnexte h]))
-      (mkHN (hname hC) (hcom hC) (del_nth jC (hneigh hC) ++ [P]) (del_nth jC (hbr hC) ++ [hnexte h])) einfo.
+      (mkHN (hname hC) (hcom hC) (del_nth jC (hneigh hC) ++ [P]) (del_nth jC (hbr hC) ++ [hnexte h])) einfo /\
+    einfo = merged_info iP iC (Nat.ltb 1 (length (del_nth jP (hneigh hP) ++ [C]))) (Nat.ltb 1 (length (del_nth jC (hneigh hC) ++ [P]))).
 Proof.
   intros Hi Hng Hbr EP EC HP HC NPC NPi NCi IP LP IC LC FP FC NE.
   unfold suppress_tail, get_node at 1. rewrite Hi. cbn [hbind]. rewrite Hng, Hbr.
@@ -616,13 +633,15 @@ Proof.
     { rewrite Nd6, Nd5, Nd3. destruct (Nat.eqb_spec i P); [congruence|]. destruct (Nat.eqb_spec i C); [congruence|].
       rewrite Nd2. destruct (Nat.eqb_spec i C); [congruence|]. rewrite Nd1. destruct (Nat.eqb_spec i P); [congruence|]. exact Hi. }
     destruct (del_node_step2 h6 i hi eP eC Hi6 Hbr) as [h7 (S7 & Nd7 & Ed7 & Rt7 & Nn7 & Ne7)].
-    eexists h7, _. split; [exact S7|]. constructor.
+    eexists h7, _. split; [exact S7|]. split; [constructor|].
     + intros x. rewrite Nd7, Nd6, Nd5, Nd3, Nd2, Nd1. unfold app_slot, YP, YC. cbn [hname hcom hneigh hbr].
       eqb_cases; subst; try congruence; reflexivity.
     + intros y. rewrite Ed7, Ed6, Ed5, Ed3, Hed2. eqb_cases; subst; try congruence; reflexivity.
     + congruence.
     + congruence.
     + congruence.
+    + unfold merged_info, app_slot, YP, YC, e0. cbn [hneigh elen esup epv ecom negb andb].
+      repeat match goal with |- context [if ?c then _ else _] => destruct c end; reflexivity.
   - (* child slot first: n1 = C, n2 = P *)
     destruct (Nat.eqb_spec i C) as [E|_]; [congruence|]. destruct (Nat.eqb_spec i P) as [E|_]; [congruence|]. cbn [andb negb].
     destruct (del_neighbor_step h C i hC jC HC IC LC) as [h1 (S1 & Nd1 & (Ed1 & Rt1 & Nn1 & Ne1))]. rewrite S1. cbn [hbind].
@@ -648,13 +667,15 @@ Proof.
     { rewrite Nd6, Nd5, Nd3. destruct (Nat.eqb_spec i P); [congruence|]. destruct (Nat.eqb_spec i C); [congruence|].
       rewrite Nd2. destruct (Nat.eqb_spec i P); [congruence|]. rewrite Nd1. destruct (Nat.eqb_spec i C); [congruence|]. exact Hi. }
     destruct (del_node_step2 h6 i hi eC eP Hi6 Hbr) as [h7 (S7 & Nd7 & Ed7 & Rt7 & Nn7 & Ne7)].
-    eexists h7, _. split; [exact S7|]. constructor.
+    eexists h7, _. split; [exact S7|]. split; [constructor|].
     + intros x. rewrite Nd7, Nd6, Nd5, Nd3, Nd2, Nd1. unfold app_slot, YP, YC. cbn [hname hcom hneigh hbr].
       eqb_cases; subst; try congruence; reflexivity.
     + intros y. rewrite Ed7, Ed6, Ed5, Ed3, Hed2. eqb_cases; subst; try congruence; reflexivity.
     + congruence.
     + congruence.
     + congruence.
+    + unfold merged_info, app_slot, YP, YC, e0. cbn [hneigh elen esup epv ecom negb andb].
+      repeat match goal with |- context [if ?c then _ else _] => destruct c end; reflexivity.
 Qed.
 
 Lemma two_slots_one_up (sl : list lslot) : length sl = 2 -> lnup sl = 1 ->
@@ -666,25 +687,24 @@ Proof.
   - exists e2, i2, c2. left. reflexivity.
 Qed.
 
-(** Case 2 on a non-root node keeps the representation *)
-Theorem suppress_inner_Rep h lt name P0 eP0 i nmi cmi sli : Rep h lt ->
-  In (Some (P0, eP0), LNode i nmi cmi sli) (lsubs None lt) -> length sli = 2 ->
-  exists h' lt', suppress_tail name i h = HOk h' /\ Rep h' lt'.
+(** Case 2 on a non-root node keeps the representation; the new tree is explicit *)
+Theorem suppress_inner_Rep_x h lt name p P0 nmP cmP l1 l2 eP0 eiP i nmi cmi (pfirst : bool) eC eiC C nmC cmC slC : Rep h lt ->
+  let sli := if pfirst then [None; Some (eC, eiC, LNode C nmC cmC slC)] else [Some (eC, eiC, LNode C nmC cmC slC); None] in
+  In (p, LNode P0 nmP cmP (l1 ++ Some (eP0, eiP, LNode i nmi cmi sli) :: l2)) (lsubs None lt) ->
+  exists h', suppress_tail name i h = HOk h' /\
+    Rep h' (lreplace P0 (LNode P0 nmP cmP ((l1 ++ l2) ++
+              [Some (hnexte h, merged_info eiP eiC (Nat.ltb 1 (length (l1 ++ Some (eP0, eiP, LNode i nmi cmi sli) :: l2))) (Nat.ltb 1 (length slC)),
+                     LNode C nmC cmC (ldrop_up slC ++ [None]))])) lt).
 Proof.
-  intros R HsubI Lsl. pose proof (Rep_Good h lt R) as G.
+  intros R sli Hsub. pose proof (Rep_Good h lt R) as G.
+  assert (HsubI : In (Some (P0, eP0), LNode i nmi cmi sli) (lsubs None lt)).
+  { eapply lsubs_trans; [exact Hsub|]. eapply lsubs_child. apply in_or_app. right. left. reflexivity. }
   destruct (lwf_sub_lsubs lt None _ _ (or_introl (rep_wf _ _ R)) HsubI) as [E|W]; [discriminate|].
-  apply lwf_sub_iff in W. destruct W as [W1 W2].
-  destruct (two_slots_one_up sli Lsl W1) as (eC & eiC & Cn & Hsli).
-  destruct Cn as [C nmC cmC slC].
-  destruct (lsubs_parent _ _ _ _ _ HsubI) as [[E _]|(p & nmP & cmP & sl & eiP & Hsub & Hs)]; [discriminate|].
-  destruct (in_split _ _ Hs) as [l1 [l2 ->]].
-  set (pfirst := match sli with None :: _ => true | _ => false end).
-  assert (Esli : sli = if pfirst then [None; Some (eC, eiC, LNode C nmC cmC slC)] else [Some (eC, eiC, LNode C nmC cmC slC); None]).
-  { unfold pfirst. destruct Hsli as [->| ->]; reflexivity. }
-  clearbody pfirst. subst sli.
+  apply lwf_sub_iff in W. destruct W as [W1 W2]. unfold sli in *. clear sli.
   (* the records *)
   pose proof (shape_lsubs _ _ _ _ _ _ (rep_shape _ _ R) HsubI) as ShI. apply shape_unfold in ShI. destruct ShI as [hi (I1 & I2 & I3 & I4 & I5)].
   pose proof (shape_lsubs _ _ _ _ _ _ (rep_shape _ _ R) Hsub) as ShP. apply shape_unfold in ShP. destruct ShP as [hP (A1 & A2 & A3 & A4 & A5)].
+  pose proof (Forall2_length' _ _ _ A5) as LenP.
   apply Forall2_app_inv_r in A5. destruct A5 as (c1 & c2' & F1 & F2 & Ec).
   apply Forall2_cons_inv_r in F2. destruct F2 as (ce & c2 & Ec2 & Ok0 & F2'). rewrite Ec2 in Ec. clear Ec2 c2'.
   destruct ce as [x0 e0]. cbn [slot_ok fst snd lid] in Ok0. destruct Ok0 as (_ & Ee & Er & [edP (E1 & E2 & E3 & E4)] & _). subst e0 x0.
@@ -693,6 +713,7 @@ Proof.
   assert (HsubC : In (Some (i, eC), LNode C nmC cmC slC) (lsubs None lt)).
   { eapply lsubs_trans; [exact HsubI|]. eapply lsubs_child. destruct pfirst; [right; left|left]; reflexivity. }
   pose proof (shape_lsubs _ _ _ _ _ _ (rep_shape _ _ R) HsubC) as ShC. apply shape_unfold in ShC. destruct ShC as [hC (B1 & B2 & B3 & B4 & B5)].
+  pose proof (Forall2_length' _ _ _ B5) as LenC.
   destruct (lwf_sub_lsubs lt None _ _ (or_introl (rep_wf _ _ R)) HsubC) as [E|WC]; [discriminate|].
   apply lwf_sub_iff in WC. destruct WC as [WC1 WC2].
   (* i's own record *)
@@ -707,18 +728,18 @@ Proof.
     - injection O2 as <- <-. destruct O1 as (_ & <- & <- & [ed (X1 & X2 & X3 & X4)] & _).
       destruct ed as [a b c]. cbn in X2, X3, X4. subst. repeat split. exact X1. }
   destruct Hrec as (Hng & Hbr & EC).
-  (* the parent of i is P0 = P, through eP0 = eP: read it off the parent's slot *)
   destruct (Rep_parent h lt R P0 eP0 _ HsubI) as (hm & edp & Q1 & Q2 & Q3 & Q4 & Q5 & Q6). cbn [lid] in Q5.
-  set (subP := LNode P0 nmP cmP (l1 ++ Some (eP0, eiP, LNode i nmi cmi (if pfirst then [None; Some (eC, eiC, LNode C nmC cmC slC)] else [Some (eC, eiC, LNode C nmC cmC slC); None])) :: l2)) in *.
+  set (sli := if pfirst then [None; Some (eC, eiC, LNode C nmC cmC slC)] else [Some (eC, eiC, LNode C nmC cmC slC); None]) in *.
+  set (subP := LNode P0 nmP cmP (l1 ++ Some (eP0, eiP, LNode i nmi cmi sli) :: l2)) in *.
   assert (Nd : NoDup (lids subP)) by (eapply lsubs_NoDup; [exact (rep_nd _ _ R)|exact Hsub]).
-  assert (NdI : NoDup (lids (LNode i nmi cmi (if pfirst then [None; Some (eC, eiC, LNode C nmC cmC slC)] else [Some (eC, eiC, LNode C nmC cmC slC); None])))).
+  assert (NdI : NoDup (lids (LNode i nmi cmi sli))).
   { eapply lsubs_NoDup; [exact (rep_nd _ _ R)|exact HsubI]. }
-  assert (InC_I : In C (lids (LNode i nmi cmi (if pfirst then [None; Some (eC, eiC, LNode C nmC cmC slC)] else [Some (eC, eiC, LNode C nmC cmC slC); None])))).
-  { rewrite lids_eq. right. destruct pfirst; cbn; left; reflexivity. }
+  assert (InC_I : In C (lids (LNode i nmi cmi sli))).
+  { rewrite lids_eq. right. unfold sli. destruct pfirst; cbn; left; reflexivity. }
   assert (NPi : P0 <> i) by (intros E0; apply Q6; rewrite E0; left; reflexivity).
   assert (NPC : P0 <> C) by (intros E0; apply Q6; rewrite E0; exact InC_I).
   assert (NCi : C <> i).
-  { intros E0. rewrite lids_eq in NdI. apply NoDup_cons_iff in NdI. apply (proj1 NdI). rewrite <- E0. destruct pfirst; cbn; left; reflexivity. }
+  { intros E0. rewrite lids_eq in NdI. apply NoDup_cons_iff in NdI. apply (proj1 NdI). rewrite <- E0. unfold sli. destruct pfirst; cbn; left; reflexivity. }
   assert (HnP : nth_error (hneigh hP) (length l1) = Some i).
   { rewrite <- (slots_of_fst hP A4). unfold slots_of. rewrite Ec, nth_error_map, <- Lc, nth_error_app_mid. reflexivity. }
   assert (IP : index_of i (hneigh hP) = Some (length l1)) by (apply index_of_NoDup; [exact (g_nodup _ G P0 hP A1)|exact HnP]).
@@ -726,16 +747,44 @@ Proof.
   destruct (drop_up_Forall2 (slot_ok true h (Some (i, eC)) C) i slC (hneigh hC) (hbr hC) B4 B5) as [jC (IC & LC & _)].
   { intros j y Hj. eapply neigh_iff_none; [exact B5|exact B4| |exact Hj].
     intros z Hz ->. rewrite lids_eq in NdI. apply NoDup_cons_iff in NdI. apply (proj1 NdI).
-    destruct pfirst; cbn [flat_map app]; rewrite ?app_nil_r, lids_eq; right; exact Hz. }
+    unfold sli. destruct pfirst; cbn [flat_map app]; rewrite ?app_nil_r, lids_eq; right; exact Hz. }
   { apply lnup_pos_in. lia. }
   assert (FrE : forall y, alookup y (hedges h) <> None -> y <> hnexte h) by (intros y Hy; apply (g_fresh_e _ G) in Hy; lia).
   assert (NE : eP0 <> eC).
   { intros E0. rewrite E0, EC in E1. injection E1 as X1 X2. congruence. }
   destruct (suppress_inner_eval h name i hi P0 C eP0 eC pfirst hP hC (length l1) jC eiP eiC I1 Hng Hbr E1 EC A1 B1 NPC NPi NCi IP LP IC LC)
-    as (h' & einfo & Ev & D); [apply FrE; congruence|apply FrE; congruence|exact NE|].
-  exists h'. eexists. split; [exact Ev|].
+    as (h' & einfo & Ev & D & Einfo); [apply FrE; congruence|apply FrE; congruence|exact NE|].
+  exists h'. split; [exact Ev|].
+  assert (Einfo' : einfo = merged_info eiP eiC (Nat.ltb 1 (length (l1 ++ Some (eP0, eiP, LNode i nmi cmi sli) :: l2))) (Nat.ltb 1 (length slC))).
+  { rewrite Einfo. f_equal; f_equal; rewrite app_length; cbn [length]; rewrite Nat.add_1_r.
+    - rewrite del_nth_length by (rewrite A4; exact LP). rewrite <- LenP. unfold slots_of. rewrite combine_length, <- A4, Nat.min_id. reflexivity.
+    - rewrite del_nth_length by (rewrite B4; exact LC). rewrite <- LenC. unfold slots_of. rewrite combine_length, <- B4, Nat.min_id. reflexivity. }
+  rewrite <- Einfo'.
   exact (SP_Rep h h' lt R p P0 nmP cmP l1 l2 eP0 eiP i nmi cmi pfirst eC eiC C nmC cmC slC Hsub hP hC jC einfo A1 B1 IC D).
 Qed.
+
+Theorem suppress_inner_Rep h lt name P0 eP0 i nmi cmi sli : Rep h lt ->
+  In (Some (P0, eP0), LNode i nmi cmi sli) (lsubs None lt) -> length sli = 2 ->
+  exists h' lt', suppress_tail name i h = HOk h' /\ Rep h' lt'.
+Proof.
+  intros R HsubI Lsl.
+  destruct (lwf_sub_lsubs lt None _ _ (or_introl (rep_wf _ _ R)) HsubI) as [E|W]; [discriminate|].
+  apply lwf_sub_iff in W. destruct W as [W1 W2].
+  destruct (two_slots_one_up sli Lsl W1) as (eC & eiC & Cn & Hsli).
+  destruct Cn as [C nmC cmC slC].
+  destruct (lsubs_parent _ _ _ _ _ HsubI) as [[E _]|(p & nmP & cmP & sl & eiP & Hsub & Hs)]; [discriminate|].
+  destruct (in_split _ _ Hs) as [l1 [l2 El]]. rewrite El in Hsub.
+  set (pfirst := match sli with None :: _ => true | _ => false end).
+  assert (Esli : sli = if pfirst then [None; Some (eC, eiC, LNode C nmC cmC slC)] else [Some (eC, eiC, LNode C nmC cmC slC); None]).
+  { unfold pfirst. destruct Hsli as [E| E]; rewrite E; reflexivity. }
+  rewrite Esli in Hsub.
+  destruct (suppress_inner_Rep_x h lt name p P0 nmP cmP l1 l2 eP0 eiP i nmi cmi pfirst eC eiC C nmC cmC slC R Hsub) as (h' & Ev & R').
+  exists h'. eexists. split; [exact Ev|exact R'].
+Qed.
+
+Lemma unroot_desc_info h h' r a b ea eb e3 Xa Xb i i' : unroot_desc h h' r a b ea eb e3 Xa Xb i -> i = i' ->
+  unroot_desc h h' r a b ea eb e3 Xa Xb i'.
+Proof. intros D <-. exact D. Qed.
 
 (** * Case 2 on the root of a tree with two root branches (the root is suppressed) *)
 Lemma suppress_root_eval h name hr n1 n2 e1 e2 hn1 hn2 i1 i2 ei1 ei2 :
@@ -749,11 +798,15 @@ Lemma suppress_root_eval h name hr n1 n2 e1 e2 hn1 hn2 i1 i2 ei1 ei2 :
   let e3 := hnexte h in
   let X1 m := mkHN (hname hn1) (hcom hn1) (del_nth i1 (hneigh hn1) ++ [m]) (del_nth i1 (hbr hn1) ++ [e3]) in
   let X2 m := mkHN (hname hn2) (hcom hn2) (del_nth i2 (hneigh hn2) ++ [m]) (del_nth i2 (hbr hn2) ++ [e3]) in
+  let info := merged_info ei1 ei2 (Nat.ltb 1 (S (length (del_nth i1 (hneigh hn1))))) (Nat.ltb 1 (S (length (del_nth i2 (hneigh hn2))))) in
   if Nat.ltb 1 (length (del_nth i1 (hneigh hn1))) then
-    exists h' info, suppress_tail name (hroot h) h = HOk h' /\ unroot_desc h h' (hroot h) n1 n2 e1 e2 e3 (X1 n2) (X2 n1) info
+    exists h', suppress_tail name (hroot h) h = HOk h' /\ unroot_desc h h' (hroot h) n1 n2 e1 e2 e3 (X1 n2) (X2 n1) info
   else if Nat.ltb 1 (length (del_nth i2 (hneigh hn2))) then
-    exists h' info, suppress_tail name (hroot h) h = HOk h' /\ unroot_desc h h' (hroot h) n2 n1 e2 e1 e3 (X2 n1) (X1 n2) info
-  else exists m, suppress_tail name (hroot h) h = HErr m.
+    exists h', suppress_tail name (hroot h) h = HOk h' /\ unroot_desc h h' (hroot h) n2 n1 e2 e1 e3 (X2 n1) (X1 n2) info
+  else suppress_tail name (hroot h) h =
+       HErr (if Nat.eqb (length (del_nth i2 (hneigh hn2))) 1 || Nat.eqb (length (del_nth i1 (hneigh hn1))) 1
+             then ("After removing the tip " ++ name ++ " connected to the root, RemoveTip could not find a new node to set as a root (the children of the root are either tips or single nodes). You can run gotree collapse single or call RemoveSingleNodes.")%string
+             else ("The tree after tip removal is only made of two tips after removing tip " ++ name)%string).
 Proof.
   intros Hr Hng Hbr Hn1 Hn2 N12 N1r N2r I1 L1 I2 L2 E1 E2 F1 F2. cbv zeta.
   destruct (Nat.ltb 1 (length (del_nth i1 (hneigh hn1)))) eqn:D1; [|destruct (Nat.ltb 1 (length (del_nth i2 (hneigh hn2)))) eqn:D2].
@@ -773,13 +826,15 @@ Proof.
       destruct (Nat.eqb_spec (hroot h) n1); [congruence|]. destruct (Nat.eqb_spec (hroot h) n2); [congruence|].
       rewrite Nd2. destruct (Nat.eqb_spec (hroot h) n2); [congruence|]. rewrite Nd1. destruct (Nat.eqb_spec (hroot h) n1); [congruence|]. exact Hr. }
     destruct (del_node_step2 h6 (hroot h) hr e1 e2 Hr6 Hbr) as [h7 (S7 & Nd7 & Ed7 & Rt7 & Nn7 & Ne7)].
-    eexists h7, _. split; [exact S7|]. constructor.
+    eexists h7. split; [exact S7|]. eapply unroot_desc_info; [constructor|].
     + intros x. rewrite Nd7, Nd6, Nd5. cbn [set_root hnodes]. rewrite Nd3, Nd2, Nd1. unfold app_slot, Y1, Y2. cbn [hname hcom hneigh hbr].
       eqb_cases; subst; try congruence; reflexivity.
     + intros y. rewrite Ed7, Ed6, Ed5. cbn [set_root hedges]. rewrite Ed3, Hed2. eqb_cases; subst; try congruence; reflexivity.
     + rewrite Rt7, Rt6, Rt5. reflexivity.
     + rewrite Nn7, Nn6, Nn5. cbn. congruence.
     + rewrite Ne7, Ne6, Ne5. cbn. congruence.
+    + unfold merged_info, app_slot, Y1, Y2, e0. cbn [hneigh elen esup epv ecom negb andb]. rewrite !app_length. cbn [length]. rewrite !Nat.add_1_r.
+      repeat match goal with |- context [if ?c then _ else _] => destruct c end; reflexivity.
   - rewrite D1, D2. destruct (connect_nodes_step h2 n2 n1 Y2 Y1 (not_eq_sym N12) A2 A1) as [h3 (S3 & Nd3 & Ed3 & Rt3 & Nn3 & Ne3)]. rewrite S3. cbn [hbind]. rewrite Hne2 in *.
       match goal with |- context [if ?c then set_info ?hh ?e ?f else HOk ?hh] =>
         destruct (set_info_if_step hh e n2 n1 e0 c f) as [h5 (S5 & Nd5 & Rt5 & Nn5 & Ne5 & Ed5)] end.
@@ -795,28 +850,38 @@ Proof.
         destruct (Nat.eqb_spec (hroot h) n2); [congruence|]. destruct (Nat.eqb_spec (hroot h) n1); [congruence|].
         rewrite Nd2. destruct (Nat.eqb_spec (hroot h) n2); [congruence|]. rewrite Nd1. destruct (Nat.eqb_spec (hroot h) n1); [congruence|]. exact Hr. }
       destruct (del_node_step2 h6 (hroot h) hr e1 e2 Hr6 Hbr) as [h7 (S7 & Nd7 & Ed7 & Rt7 & Nn7 & Ne7)].
-      eexists h7, _. split; [exact S7|]. constructor.
+      eexists h7. split; [exact S7|]. eapply unroot_desc_info; [constructor|].
       * intros x. rewrite Nd7, Nd6, Nd5. cbn [set_root hnodes]. rewrite Nd3, Nd2, Nd1. unfold app_slot, Y1, Y2. cbn [hname hcom hneigh hbr].
         eqb_cases; subst; try congruence; reflexivity.
       * intros y. rewrite Ed7, Ed6, Ed5. cbn [set_root hedges]. rewrite Ed3, Hed2. eqb_cases; subst; try congruence; reflexivity.
       * rewrite Rt7, Rt6, Rt5. reflexivity.
       * rewrite Nn7, Nn6, Nn5. cbn. congruence.
       * rewrite Ne7, Ne6, Ne5. cbn. congruence.
-  - rewrite D1, D2. destruct (Nat.eqb (length (del_nth i2 (hneigh hn2))) 1 || Nat.eqb (length (del_nth i1 (hneigh hn1))) 1); cbn [hbind]; eexists; reflexivity.
+      * unfold merged_info, app_slot, Y1, Y2, e0. cbn [hneigh elen esup epv ecom negb andb]. rewrite !app_length. cbn [length]. rewrite !Nat.add_1_r.
+        repeat match goal with |- context [if ?c then _ else _] => destruct c end; reflexivity.
+  - rewrite D1, D2. destruct (Nat.eqb (length (del_nth i2 (hneigh hn2))) 1 || Nat.eqb (length (del_nth i1 (hneigh hn1))) 1); cbn [hbind]; reflexivity.
 Qed.
 
-(** Case 2 on the root keeps the representation (or reports that no new root can be chosen) *)
-Theorem suppress_root_Rep h lt name : Rep h lt -> length (lslots lt) = 2 ->
-  (exists h' lt', suppress_tail name (hroot h) h = HOk h' /\ Rep h' lt') \/
-  (exists m, suppress_tail name (hroot h) h = HErr m).
+(** Case 2 on the root keeps the representation (or reports that no new root can be chosen); explicit *)
+Theorem suppress_root_Rep_x h name r nm cm e1 ei1 n1 nm1 cm1 sl1 e2 ei2 n2 nm2 cm2 sl2 :
+  Rep h (LNode r nm cm [Some (e1, ei1, LNode n1 nm1 cm1 sl1); Some (e2, ei2, LNode n2 nm2 cm2 sl2)]) ->
+  let info := merged_info ei1 ei2 (Nat.ltb 1 (length sl1)) (Nat.ltb 1 (length sl2)) in
+  if Nat.ltb 1 (length sl1 - 1) then
+    exists h', suppress_tail name (hroot h) h = HOk h' /\
+      Rep h' (LNode n1 nm1 cm1 (ldrop_up sl1 ++ [Some (hnexte h, info, LNode n2 nm2 cm2 (ldrop_up sl2 ++ [None]))]))
+  else if Nat.ltb 1 (length sl2 - 1) then
+    exists h', suppress_tail name (hroot h) h = HOk h' /\
+      Rep h' (LNode n2 nm2 cm2 (ldrop_up sl2 ++ [Some (hnexte h, info, LNode n1 nm1 cm1 (ldrop_up sl1 ++ [None]))]))
+  else suppress_tail name (hroot h) h =
+       HErr (if Nat.eqb (length sl2 - 1) 1 || Nat.eqb (length sl1 - 1) 1
+             then ("After removing the tip " ++ name ++ " connected to the root, RemoveTip could not find a new node to set as a root (the children of the root are either tips or single nodes). You can run gotree collapse single or call RemoveSingleNodes.")%string
+             else ("The tree after tip removal is only made of two tips after removing tip " ++ name)%string).
 Proof.
-  intros R L2. destruct lt as [r0 nm cm sl]. pose proof (rep_root _ _ R) as Hroot. cbn [lid] in Hroot. subst r0. cbn [lslots] in L2.
+  intros R. set (sl := [Some (e1, ei1, LNode n1 nm1 cm1 sl1); Some (e2, ei2, LNode n2 nm2 cm2 sl2)]) in *.
+  pose proof (rep_root _ _ R) as Hroot. cbn [lid] in Hroot. subst r.
   pose proof (rep_shape _ _ R) as Sh. pose proof Sh as Sh0. apply shape_unfold in Sh. destruct Sh as [hr (A1 & A2 & A3 & A4 & A5)].
   destruct (shape_length _ _ _ _ _ _ _ _ Sh0 A1) as [Lr _].
-  pose proof (rep_wf _ _ R) as W. apply lwf_iff in W. destruct W as [W0 Wk].
-  destruct sl as [|s1 [|s2 [|s3 sl]]]; cbn in L2; try lia.
-  destruct s1 as [[[e1 ei1] [n1 nm1 cm1 sl1]]|]; [|cbn in W0; discriminate].
-  destruct s2 as [[[e2 ei2] [n2 nm2 cm2 sl2]]|]; [|cbn in W0; discriminate].
+  pose proof (rep_wf _ _ R) as W. apply lwf_iff in W. destruct W as [W0 Wk]. unfold sl in *. clear sl. cbn [length] in Lr.
   (* the root's two slots *)
   unfold slots_of in A5. destruct (hneigh hr) as [|x1 [|x2 [|x3 ng]]] eqn:Eng; cbn in Lr; try lia.
   destruct (hbr hr) as [|b1 [|b2 [|b3 bs]]] eqn:Ebr; cbn in A4; try lia. cbn [combine] in A5.
@@ -873,17 +938,39 @@ Proof.
   assert (Hed2 : alookup e2 (hedges h) = Some (mkHE (hroot h) n2 ei2)).
   { destruct ed2 as [a b c]. cbn in E2i, E2l, E2r. subst. exact E2. }
   specialize (Ev Hed1 Hed2 F1 F2). cbv zeta in Ev.
-  destruct (Nat.ltb 1 (length (del_nth i1 (hneigh hn1)))).
-  - destruct Ev as (h' & info & Ev & D). left. exists h'. eexists. split; [exact Ev|].
+  assert (Len1 : length (del_nth i1 (hneigh hn1)) = length sl1 - 1).
+  { pose proof (del_nth_length i1 (hneigh hn1) ltac:(rewrite B4; exact I1')). lia. }
+  assert (Len2 : length (del_nth i2 (hneigh hn2)) = length sl2 - 1).
+  { pose proof (del_nth_length i2 (hneigh hn2) ltac:(rewrite C4; exact I2')). lia. }
+  assert (P1' : 0 < length sl1) by (rewrite <- B5, B4; lia). assert (P2' : 0 < length sl2) by (rewrite <- C5, C4; lia).
+  rewrite Len1, Len2 in Ev. replace (S (length sl1 - 1)) with (length sl1) in Ev by lia. replace (S (length sl2 - 1)) with (length sl2) in Ev by lia.
+  cbv zeta. destruct (Nat.ltb 1 (length sl1 - 1)).
+  - destruct Ev as (h' & Ev & D). exists h'. split; [exact Ev|].
     eapply (unroot_generic h h' (hroot h) n1 n2 e1 e2 (hnexte h) nm1 nm2 cm1 cm2 sl1 sl2 hn1 hn2 i1 i2); try eassumption; try reflexivity.
     + intros x. rewrite Dn. split; intros Hx; [eapply Permutation_in; [exact P1|exact Hx]|eapply Permutation_in; [symmetry; exact P1|exact Hx]].
     + intros x. rewrite De. split; intros Hx; [eapply Permutation_in; [exact Q1|exact Hx]|eapply Permutation_in; [symmetry; exact Q1|exact Hx]].
-  - destruct (Nat.ltb 1 (length (del_nth i2 (hneigh hn2)))).
-    + destruct Ev as (h' & info & Ev & D). left. exists h'. eexists. split; [exact Ev|].
+  - destruct (Nat.ltb 1 (length sl2 - 1)).
+    + destruct Ev as (h' & Ev & D). exists h'. split; [exact Ev|].
       eapply (unroot_generic h h' (hroot h) n2 n1 e2 e1 (hnexte h) nm2 nm1 cm2 cm1 sl2 sl1 hn2 hn1 i2 i1); try eassumption; try reflexivity.
       * intros x. rewrite Dn. split; intros Hx; [eapply Permutation_in; [exact P2|exact Hx]|eapply Permutation_in; [symmetry; exact P2|exact Hx]].
       * intros x. rewrite De. split; intros Hx; [eapply Permutation_in; [exact Q2|exact Hx]|eapply Permutation_in; [symmetry; exact Q2|exact Hx]].
-    + right. exact Ev.
+    + exact Ev.
+Qed.
+
+Theorem suppress_root_Rep h lt name : Rep h lt -> length (lslots lt) = 2 ->
+  (exists h' lt', suppress_tail name (hroot h) h = HOk h' /\ Rep h' lt') \/
+  (exists m, suppress_tail name (hroot h) h = HErr m).
+Proof.
+  intros R L2. destruct lt as [r0 nm cm sl]. cbn [lslots] in L2.
+  pose proof (rep_wf _ _ R) as W. apply lwf_iff in W. destruct W as [W0 Wk].
+  destruct sl as [|s1 [|s2 [|s3 sl]]]; cbn in L2; try lia.
+  destruct s1 as [[[e1 ei1] [n1 nm1 cm1 sl1]]|]; [|cbn in W0; discriminate].
+  destruct s2 as [[[e2 ei2] [n2 nm2 cm2 sl2]]|]; [|cbn in W0; discriminate].
+  pose proof (suppress_root_Rep_x h name r0 nm cm e1 ei1 n1 nm1 cm1 sl1 e2 ei2 n2 nm2 cm2 sl2 R) as X. cbv zeta in X.
+  destruct (Nat.ltb 1 (length sl1 - 1)); [|destruct (Nat.ltb 1 (length sl2 - 1))].
+  - destruct X as (h' & Ev & R'). left. exists h'. eexists. split; [exact Ev|exact R'].
+  - destruct X as (h' & Ev & R'). left. exists h'. eexists. split; [exact Ev|exact R'].
+  - right. eexists. exact X.
 Qed.
 
 (** * Case 1b: the root is left with one neighbour: that neighbour becomes the root *)
